@@ -335,7 +335,6 @@ pub open spec fn dep_divisor(deps: Seq<Transaction>) -> int {
     let n = deps.len() as int;
     imax2(sat128(spec_isqrt(sat_sum(out_vals(deps, 0), n)) * spec_isqrt(sat_sum(out_vals(deps, 1), n))), sat_sum(dep_weights(deps), n))
 }
-pub open spec fn deposit_legacy(network: NetID, height: BlockHeight) -> bool { (network == NetID::Mainnet || network == NetID::Testnet) && height.0 < 978392 }
 pub open spec fn deposits_pre(deps: Seq<Transaction>, k: PoolKey) -> bool {
     &&& forall|i: int| 0 <= i < deps.len() ==> (#[trigger] deps[i]).outputs@.len() >= 2 && deps[i].outputs@[0].value.0 > 0 && deps[i].outputs@[1].value.0 > 0
     &&& forall|i: int, j: int| 0 <= i < j < deps.len() ==> spec_txhash(#[trigger] deps[i]) != spec_txhash(#[trigger] deps[j])
@@ -854,4 +853,28 @@ pub proof fn lemma_builtin_liqs<C: ContentAddrStore>(s: UnsealedState<C>)
     requires pools_ok(s.pools@), builtins_live(s)
     ensures forall|k: PoolKey| #[trigger] s.pools@.contains_key(k) ==> s.pools@[k].liqs >= (if is_builtin_key(k, spec_tip(s.network, s.height, 180000)) { 1int } else { 0int })
 {
+}
+
+// ---- C19: the settlement phases never touch a faucet's dedup marker (they write and remove coins only under ids of transaction outputs)
+pub proof fn lemma_marker_not_req(reqs: Seq<Transaction>, h: TxHash)
+    ensures forall|j: int, i: int| 0 <= j < reqs.len() ==> #[trigger] cid(reqs[j], i) != spec_marker(h)
+{
+    broadcast use axiom_marker_not_output;
+    assert forall|j: int, i: int| 0 <= j < reqs.len() implies #[trigger] cid(reqs[j], i) != spec_marker(h) by { assert(spec_txhash(reqs[j]).0 != spec_fdp_hash(h)); }
+}
+pub proof fn lemma_swaps_markers(pools0: Map<PoolKey, PoolState>, c0: IMap<CoinID, CoinDataHeight>, height: BlockHeight, reqs: Seq<Transaction>, done: ISet<PoolKey>, pools1: Map<PoolKey, PoolState>, c1: IMap<CoinID, CoinDataHeight>)
+    requires swaps_done(pools0, c0, height, reqs, done, pools1, c1) ensures markers_kept(c0, c1)
+{
+    assert forall|h: TxHash| c0.contains_key(#[trigger] spec_marker(h)) implies c1.contains_key(spec_marker(h)) && c1[spec_marker(h)] == c0[spec_marker(h)] by { lemma_marker_not_req(reqs, h); }
+}
+pub proof fn lemma_deps_markers(pools0: Map<PoolKey, PoolState>, c0: IMap<CoinID, CoinDataHeight>, height: BlockHeight, reqs: Seq<Transaction>, done: ISet<PoolKey>, mint: spec_fn(PoolKey) -> int, pools1: Map<PoolKey, PoolState>, c1: IMap<CoinID, CoinDataHeight>)
+    requires deps_done(pools0, c0, height, false, reqs, done, mint, pools1, c1) ensures markers_kept(c0, c1)
+{
+    assert forall|h: TxHash| c0.contains_key(#[trigger] spec_marker(h)) implies c1.contains_key(spec_marker(h)) && c1[spec_marker(h)] == c0[spec_marker(h)] by {
+        lemma_marker_not_req(reqs, h); assert(!dep_gone(reqs, done, spec_marker(h))); }
+}
+pub proof fn lemma_wds_markers(pools0: Map<PoolKey, PoolState>, c0: IMap<CoinID, CoinDataHeight>, height: BlockHeight, reqs: Seq<Transaction>, done: ISet<PoolKey>, wl: spec_fn(PoolKey) -> int, wr: spec_fn(PoolKey) -> int, pools1: Map<PoolKey, PoolState>, c1: IMap<CoinID, CoinDataHeight>)
+    requires wds_done(pools0, c0, height, reqs, done, wl, wr, pools1, c1) ensures markers_kept(c0, c1)
+{
+    assert forall|h: TxHash| c0.contains_key(#[trigger] spec_marker(h)) implies c1.contains_key(spec_marker(h)) && c1[spec_marker(h)] == c0[spec_marker(h)] by { lemma_marker_not_req(reqs, h); }
 }
